@@ -4,9 +4,13 @@ import (
 	"fmt"
 	"go/ast"
 	"go/types"
+	"regexp"
 	"sort"
 	"strings"
 )
+
+// protobuf getters: `x.GetFoo()` reads the same slice as `x.Foo`
+var getterRe = regexp.MustCompile(`\.Get([A-Z]\w*)\(\)`)
 
 // genPanics: potentially panicking constructs in the repository's own functions reachable from
 // the modules' begin/end-block entry points without passing through a function that installs a
@@ -54,8 +58,114 @@ func genPanics(w *world) {
 			}
 			return true
 		})
+		// loops that bound an index variable by the indexed expression itself
+		rangeIdx := map[string]bool{} // "<var>\x00<expr>"
 		ast.Inspect(fi.decl.Body, func(n ast.Node) bool {
 			switch s := n.(type) {
+			case *ast.RangeStmt:
+				if id, ok := s.Key.(*ast.Ident); ok && id.Name != "_" {
+					rangeIdx[id.Name+"\x00"+src(s.X)] = true
+				}
+			case *ast.ForStmt:
+				if be, ok := s.Cond.(*ast.BinaryExpr); ok && (be.Op.String() == "<") {
+					if id, ok := be.X.(*ast.Ident); ok {
+						if c, ok := be.Y.(*ast.CallExpr); ok && src(c.Fun) == "len" && len(c.Args) == 1 {
+							rangeIdx[id.Name+"\x00"+src(c.Args[0])] = true
+						}
+					}
+				}
+			}
+			return true
+		})
+		// `x := make([]T, len(y))`: x is as long as y
+		allocLen := map[string]string{}
+		// index expressions inside a `sort.Slice(x, func(i, j int) bool {… x[i] … x[j] …})` callback
+		sortIdx := map[*ast.IndexExpr]bool{}
+		ast.Inspect(fi.decl.Body, func(n ast.Node) bool {
+			switch s := n.(type) {
+			case *ast.AssignStmt:
+				if len(s.Lhs) == 1 && len(s.Rhs) == 1 {
+					if c, ok := s.Rhs[0].(*ast.CallExpr); ok && src(c.Fun) == "make" && len(c.Args) == 2 {
+						if l, ok := c.Args[1].(*ast.CallExpr); ok && src(l.Fun) == "len" && len(l.Args) == 1 {
+							allocLen[src(s.Lhs[0])] = src(l.Args[0])
+						}
+					}
+				}
+			case *ast.CallExpr:
+				if f := src(s.Fun); (f == "sort.Slice" || f == "sort.SliceStable") && len(s.Args) == 2 {
+					if fl, ok := s.Args[1].(*ast.FuncLit); ok {
+						params := map[string]bool{}
+						for _, fld := range fl.Type.Params.List {
+							for _, nm := range fld.Names {
+								params[nm.Name] = true
+							}
+						}
+						x := src(s.Args[0])
+						ast.Inspect(fl.Body, func(m ast.Node) bool {
+							if ie, ok := m.(*ast.IndexExpr); ok && src(ie.X) == x {
+								if id, ok := ie.Index.(*ast.Ident); ok && params[id.Name] {
+									sortIdx[ie] = true
+								}
+							}
+							return true
+						})
+					}
+				}
+			}
+			return true
+		})
+		bodySrc := src(fi.decl.Body)
+		indexSite := func(x ast.Expr, idx ast.Expr, whole ast.Node) {
+			tv, ok := info.Types[x]
+			if !ok || !tv.IsValue() {
+				return // generic instantiation or type expression
+			}
+			switch u := tv.Type.Underlying().(type) {
+			case *types.Slice:
+			case *types.Basic:
+				if u.Info()&types.IsString == 0 {
+					return
+				}
+			default:
+				return // arrays are bounds-checked at compile time for constants; maps never panic on read
+			}
+			if id, ok := idx.(*ast.Ident); ok {
+				if rangeIdx[id.Name+"\x00"+src(x)] {
+					return
+				}
+				// allocated with the length of the slice the loop runs over
+				if y, ok := allocLen[src(x)]; ok && rangeIdx[id.Name+"\x00"+y] {
+					return
+				}
+			}
+			if ie, ok := whole.(*ast.IndexExpr); ok && sortIdx[ie] {
+				return
+			}
+			kind := "index-unguarded"
+			if strings.Contains(getterRe.ReplaceAllString(bodySrc, ".$1"), "len("+getterRe.ReplaceAllString(src(x), ".$1")+")") {
+				kind = "index-guarded"
+			}
+			rows = append(rows, row{fkey, src(whole), kind, posOf(whole.Pos()), via[fi.obj]})
+		}
+		ast.Inspect(fi.decl.Body, func(n ast.Node) bool {
+			switch s := n.(type) {
+			case *ast.IndexExpr:
+				indexSite(s.X, s.Index, s)
+			case *ast.SliceExpr:
+				// x[:i] / x[i+1:] with i the range index over x itself cannot be out of bounds
+				bounded := func(e ast.Expr) bool {
+					if e == nil {
+						return true
+					}
+					if be, ok := e.(*ast.BinaryExpr); ok && be.Op.String() == "+" && src(be.Y) == "1" {
+						e = be.X
+					}
+					id, ok := e.(*ast.Ident)
+					return ok && rangeIdx[id.Name+"\x00"+src(s.X)]
+				}
+				if (s.Low != nil || s.High != nil) && !(bounded(s.Low) && bounded(s.High)) {
+					indexSite(s.X, nil, s)
+				}
 			case *ast.CallExpr:
 				name := ""
 				var recvT types.Type
